@@ -158,7 +158,7 @@ func (ec *evalCtx) eval(e CExpr) (TV, error) {
 		if err != nil {
 			return TV{}, err
 		}
-		if _, isIface := ty.Underlying().(*types.Interface); isIface {
+		if _, isIface := under(ty).(*types.Interface); isIface {
 			return TV{T: v.T, Ty: ty}, nil
 		}
 		return TV{T: c.unbox(ifVal(v.T), c.sortOf(ty)), Ty: ty}, nil
@@ -377,7 +377,7 @@ func (ec *evalCtx) object(obj types.Object) (TV, error) {
 func (ec *evalCtx) constObj(k *types.Const) (TV, error) {
 	c := ec.c
 	ty := k.Type()
-	b, _ := ty.Underlying().(*types.Basic)
+	b, _ := under(ty).(*types.Basic)
 	switch {
 	case b != nil && b.Info()&types.IsBoolean != 0:
 		if constant.BoolVal(k.Val()) {
@@ -401,13 +401,13 @@ func (ec *evalCtx) constObj(k *types.Const) (TV, error) {
 
 // deref reads the value a pointer points to.
 func (ec *evalCtx) deref(p TV) (TV, error) {
-	pt, ok := p.Ty.Underlying().(*types.Pointer)
+	pt, ok := under(p.Ty).(*types.Pointer)
 	if !ok {
 		return TV{}, fmt.Errorf("dereference of non-pointer %s", p.Ty)
 	}
 	c := ec.c
 	elem := pt.Elem()
-	if arr, ok := elem.Underlying().(*types.Array); ok {
+	if arr, ok := under(elem).(*types.Array); ok {
 		s := c.sortOf(arr.Elem())
 		return TV{T: sel(c.get(ec.st, c.regElem(s)), p.T, arraySort(c.sc.idxSort(), s)), Ty: elem}, nil
 	}
@@ -459,13 +459,13 @@ func (ec *evalCtx) selector(x *CSel) (TV, error) {
 	}
 	cur := v
 	for _, idx := range path {
-		if _, isPtr := cur.Ty.Underlying().(*types.Pointer); isPtr {
+		if _, isPtr := under(cur.Ty).(*types.Pointer); isPtr {
 			cur, err = ec.deref(cur)
 			if err != nil {
 				return TV{}, err
 			}
 		}
-		st, ok := cur.Ty.Underlying().(*types.Struct)
+		st, ok := under(cur.Ty).(*types.Struct)
 		if !ok {
 			return TV{}, fmt.Errorf("field selection on non-struct %s", cur.Ty)
 		}
@@ -496,15 +496,15 @@ func (ec *evalCtx) index(x *CIdx) (TV, error) {
 	if err != nil {
 		return TV{}, err
 	}
-	if p, ok := v.Ty.Underlying().(*types.Pointer); ok {
-		if _, isArr := p.Elem().Underlying().(*types.Array); isArr {
+	if p, ok := under(v.Ty).(*types.Pointer); ok {
+		if _, isArr := under(p.Elem()).(*types.Array); isArr {
 			v, err = ec.deref(v)
 			if err != nil {
 				return TV{}, err
 			}
 		}
 	}
-	switch t := v.Ty.Underlying().(type) {
+	switch t := under(v.Ty).(type) {
 	case *types.Slice:
 		i = ec.concretise(i, types.Typ[types.Int])
 		ix := c.toIdx(i.T, i.Ty)
@@ -624,7 +624,7 @@ func (ec *evalCtx) binary(x *CBin) (TV, error) {
 		return TV{}, err
 	}
 	if x.Op == "in" {
-		mt, ok := b.Ty.Underlying().(*types.Map)
+		mt, ok := under(b.Ty).(*types.Map)
 		if !ok {
 			return TV{}, fmt.Errorf("'in' needs a map on the right")
 		}
@@ -768,7 +768,7 @@ func (ec *evalCtx) quant(x *CQuant) (TV, error) {
 		// quantified variables of struct type range over all values of the SMT sort (no
 		// well-formedness guard): lemmas are proved for all of them, so using them needs no
 		// side condition on elements read from the heap
-		if _, isStruct := ty.Underlying().(*types.Struct); !isStruct {
+		if _, isStruct := under(ty).(*types.Struct); !isStruct {
 			if wf := c.wfTerm(t, ty); wf.S != "true" {
 				guards = append(guards, wf)
 			}
@@ -1003,13 +1003,13 @@ func (ec *evalCtx) call(x *CCall) (TV, error) {
 			if err != nil {
 				return TV{}, err
 			}
-			if p, ok := v.Ty.Underlying().(*types.Pointer); ok {
-				if arr, ok := p.Elem().Underlying().(*types.Array); ok {
+			if p, ok := under(v.Ty).(*types.Pointer); ok {
+				if arr, ok := under(p.Elem()).(*types.Array); ok {
 					return ec.concretise(TV{Const: big.NewInt(arr.Len())}, types.Typ[types.Int]), nil
 				}
 			}
 			intT := types.Typ[types.Int]
-			switch t := v.Ty.Underlying().(type) {
+			switch t := under(v.Ty).(type) {
 			case *types.Slice:
 				if ec.binders == 0 {
 					// type invariant of every Go slice value: 0 <= len <= cap
@@ -1207,7 +1207,7 @@ func (ec *evalCtx) convert(arg CExpr, ty types.Type) (TV, error) {
 	if c.sortOf(v.Ty) == c.sortOf(ty) {
 		return TV{T: v.T, Ty: ty}, nil
 	}
-	if _, isIface := ty.Underlying().(*types.Interface); isIface {
+	if _, isIface := under(ty).(*types.Interface); isIface {
 		return TV{T: c.makeIface(v.T, v.Ty), Ty: ty}, nil
 	}
 	return TV{}, fmt.Errorf("unsupported conversion %s -> %s in contract", v.Ty, ty)
@@ -1220,7 +1220,7 @@ func (ec *evalCtx) pureCall(fn *types.Func, recv *TV, args []CExpr) (TV, error) 
 	key := fn.FullName()
 	if recv != nil {
 		// interface method invoked on an interface-typed receiver: key by the static receiver type
-		if _, isIface := recv.Ty.Underlying().(*types.Interface); isIface {
+		if _, isIface := under(recv.Ty).(*types.Interface); isIface {
 			key = "(" + types.TypeString(recv.Ty, nil) + ")." + fn.Name()
 		}
 	}
@@ -1238,8 +1238,8 @@ func (ec *evalCtx) pureCall(fn *types.Func, recv *TV, args []CExpr) (TV, error) 
 		r := *recv
 		// adjust receiver: method with pointer receiver called on addressable value is not supported; value receiver on pointer derefs
 		if sig.Recv() != nil {
-			_, wantPtr := sig.Recv().Type().Underlying().(*types.Pointer)
-			_, havePtr := r.Ty.Underlying().(*types.Pointer)
+			_, wantPtr := under(sig.Recv().Type()).(*types.Pointer)
+			_, havePtr := under(r.Ty).(*types.Pointer)
 			if !wantPtr && havePtr {
 				var err error
 				r, err = ec.deref(r)
@@ -1268,7 +1268,7 @@ func (ec *evalCtx) pureCall(fn *types.Func, recv *TV, args []CExpr) (TV, error) 
 			pt = v.Ty // generic function: the instantiated parameter type is the argument's type
 		}
 		v = ec.concretise(v, pt)
-		if _, isIface := pt.Underlying().(*types.Interface); isIface && v.T.Sort != SIface {
+		if _, isIface := under(pt).(*types.Interface); isIface && v.T.Sort != SIface {
 			v = TV{T: c.makeIface(v.T, v.Ty), Ty: pt}
 		}
 		terms = append(terms, v.T)
@@ -1372,7 +1372,7 @@ func (ec *evalCtx) ghostApp(g *GhostFunc, args []CExpr) (TV, error) {
 			return TV{}, err
 		}
 		v = ec.concretise(v, pt)
-		if _, isIface := pt.Underlying().(*types.Interface); isIface && v.T.Sort != SIface {
+		if _, isIface := under(pt).(*types.Interface); isIface && v.T.Sort != SIface {
 			v = TV{T: c.makeIface(v.T, v.Ty), Ty: pt}
 		}
 		terms = append(terms, v.T)
